@@ -1,0 +1,17 @@
+//go:build verif
+// +build verif
+
+package io
+
+// VerifYieldHook is used by the verification harness in /verif (build tag "verif") to
+// force schedules: when it is non-nil it is called at the named yield points of this
+// package with the object concerned (the reflect.Type being registered). It must be set
+// before the goroutines that encode or decode are started. With the tag off
+// (verif_off.go) the yield points compile to nothing.
+var VerifYieldHook func(point string, obj interface{})
+
+func verifYield(point string, obj interface{}) {
+	if h := VerifYieldHook; h != nil {
+		h(point, obj)
+	}
+}
